@@ -3,9 +3,10 @@ import Driver.OpsPackets
 import Driver.OpsXtce
 import Driver.OpsCli
 import Driver.OpsCopy
+import Driver.OpsXarr
 namespace Driver
 
-def handlers : List (String → List SExp → Option String) := [opsBits, opsPackets, opsXtce, opsCli, opsCopy]
+def handlers : List (String → List SExp → Option String) := [opsBits, opsPackets, opsXtce, opsCli, opsCopy, opsXarr]
 
 def respond (line : String) : String :=
   match parseLine line with
